@@ -22,6 +22,43 @@ Proof.
   - apply Z.eqb_eq. apply H. apply c09_in_zrange in Hd. lia.
 Qed.
 
+(* a working leaf that reserved nothing (no work left), balancing on *)
+Definition c09_norows_on (cfg : config) (rows : list obs_row) (r : nat) (s e : Z) : Prop :=
+  let eday := day_of (e - 1) in
+  s = e /\ 0 < cap cfg r eday
+  /\ DAY * (eday + 1) - frac (obooked rows r eday) (cap cfg r eday) <= e
+  /\ exists n, (n <= length rows)%nat
+       /\ e = DAY * (eday + 1) - frac (obooked (firstn n rows) r eday) (cap cfg r eday).
+
+(* ... balancing off *)
+Definition c09_norows_off (cfg : config) (r : nat) (s e : Z) : Prop :=
+  let eday := day_of (e - 1) in
+  s = e /\ 0 < cap cfg r eday /\ e = DAY * (eday + 1).
+
+Lemma c09_norows_on_b cfg rows r s e :
+  (s =? e) && (0 <? cap cfg r (day_of (e - 1)))
+  && (DAY * (day_of (e - 1) + 1) - frac (obooked rows r (day_of (e - 1))) (cap cfg r (day_of (e - 1))) <=? e)
+  && existsb (fun n => e =? DAY * (day_of (e - 1) + 1)
+                            - frac (obooked (firstn n rows) r (day_of (e - 1))) (cap cfg r (day_of (e - 1))))
+             (seq 0 (S (length rows))) = true
+  <-> c09_norows_on cfg rows r s e.
+Proof.
+  unfold c09_norows_on. cbv zeta.
+  rewrite !andb_true_iff, Z.eqb_eq, Z.ltb_lt, Z.leb_le, existsb_exists.
+  split.
+  - intros [[[A B] C] [n [Hn En]]]. apply in_seq in Hn. apply Z.eqb_eq in En.
+    split; [exact A|]. split; [exact B|]. split; [exact C|]. exists n. split; [lia | exact En].
+  - intros [A [B [C [n [Hn En]]]]]. split; [split; [split|]|]; try assumption.
+    exists n. split; [apply in_seq; lia | apply Z.eqb_eq; exact En].
+Qed.
+
+Lemma c09_norows_off_b cfg r s e :
+  (s =? e) && (0 <? cap cfg r (day_of (e - 1))) && (e =? DAY * (day_of (e - 1) + 1)) = true
+  <-> c09_norows_off cfg r s e.
+Proof.
+  unfold c09_norows_off. cbv zeta. rewrite !andb_true_iff, !Z.eqb_eq, Z.ltb_lt. tauto.
+Qed.
+
 Definition c09_task_statement (cfg : config) (w : list itask) (o : osch) (t : nat) : Prop :=
   exists s e, o_start o t = Some s /\ o_end o t = Some e
   (* not after the project end; before every dependant (own or inherited) that has a start *)
@@ -35,6 +72,8 @@ Definition c09_task_statement (cfg : config) (w : list itask) (o : osch) (t : na
       let eday := day_of (e - 1) in
       (balance cfg = true ->
          c09_full cfg (o_rows o) r (day_of e) (day_of due)
+         (* no work left, nothing reserved *)
+         /\ (map row_day (rows_of o t) = [] -> c09_norows_on cfg (o_rows o) r s e)
          /\ forall d0 ds, map row_day (rows_of o t) = d0 :: ds ->
               let first := zmin_list d0 ds in
               let last := zmax_list d0 ds in
@@ -42,7 +81,8 @@ Definition c09_task_statement (cfg : config) (w : list itask) (o : osch) (t : na
               /\ s = DAY * (first + 1) - frac (obooked (upto_task_day (o_rows o) t first) r first) (cap cfg r first)
               /\ e = DAY * (eday + 1) - frac (obooked (before_task (o_rows o) t) r eday) (cap cfg r eday))
       /\ (balance cfg = false ->
-          forall d0 ds, map row_day (rows_of o t) = d0 :: ds ->
+          (map row_day (rows_of o t) = [] -> c09_norows_off cfg r s e)
+          /\ forall d0 ds, map row_day (rows_of o t) = d0 :: ds ->
               let first := zmin_list d0 ds in
               s = DAY * (first + 1) - frac (obooked_t (o_rows o) r first t) (cap cfg r first)
               /\ e = DAY * (eday + 1))).
@@ -62,12 +102,15 @@ Proof.
     intros Hl Hm. rewrite Hl, Hm in H3. cbn [negb andb] in H3. cbv zeta.
     split.
     + intros Hb. rewrite Hb in H3. apply andb_true_iff in H3. destruct H3 as [H3 H4].
-      apply c09_full_b in H3. split; [exact H3|].
-      intros d0 ds Ed. rewrite Ed in H4. apply andb_true_iff in H4. destruct H4 as [H4 H7].
-      apply andb_true_iff in H4. destruct H4 as [H5 H6].
-      apply c09_full_b in H5. apply Z.eqb_eq in H6. apply Z.eqb_eq in H7. auto.
-    + intros Hb. rewrite Hb in H3. intros d0 ds Ed. rewrite Ed in H3.
-      apply andb_true_iff in H3. destruct H3 as [H4 H5]. apply Z.eqb_eq in H4. apply Z.eqb_eq in H5. auto.
+      apply c09_full_b in H3. split; [exact H3|]. split.
+      * intros Ed. rewrite Ed in H4. apply c09_norows_on_b. exact H4.
+      * intros d0 ds Ed. rewrite Ed in H4. apply andb_true_iff in H4. destruct H4 as [H4 H7].
+        apply andb_true_iff in H4. destruct H4 as [H5 H6].
+        apply c09_full_b in H5. apply Z.eqb_eq in H6. apply Z.eqb_eq in H7. auto.
+    + intros Hb. rewrite Hb in H3. split.
+      * intros Ed. rewrite Ed in H3. apply c09_norows_off_b. exact H3.
+      * intros d0 ds Ed. rewrite Ed in H3.
+        apply andb_true_iff in H3. destruct H3 as [H4 H5]. apply Z.eqb_eq in H4. apply Z.eqb_eq in H5. auto.
   - intros [s' [e' [Es [Ee [H1 [H2 [H2' H3]]]]]]]. inversion Es; subst s'. inversion Ee; subst e'. clear Es Ee.
     apply andb_true_iff. split; [apply andb_true_iff; split; [apply andb_true_iff; split|]|].
     + apply Z.leb_le. exact H1.
@@ -76,15 +119,16 @@ Proof.
     + destruct (leafb w t) eqn:Hl; [|reflexivity]. destruct (k_milestone (gett w t)) eqn:Hm; [reflexivity|].
       cbn [negb andb]. specialize (H3 eq_refl eq_refl). cbv zeta in H3. destruct H3 as [Hon Hoff].
       destruct (balance cfg) eqn:Hb.
-      * destruct (Hon eq_refl) as [A B]. apply andb_true_iff. split; [apply c09_full_b; exact A|].
-        destruct (map row_day (rows_of o t)) as [|d0 ds] eqn:Ed; [reflexivity|].
+      * destruct (Hon eq_refl) as [A [N B]]. apply andb_true_iff. split; [apply c09_full_b; exact A|].
+        destruct (map row_day (rows_of o t)) as [|d0 ds] eqn:Ed; [apply c09_norows_on_b; apply N; reflexivity|].
         destruct (B d0 ds eq_refl) as [B1 [B2 B3]].
         apply andb_true_iff. split; [apply andb_true_iff; split|].
         -- apply c09_full_b. exact B1.
         -- apply Z.eqb_eq. exact B2.
         -- apply Z.eqb_eq. exact B3.
-      * destruct (map row_day (rows_of o t)) as [|d0 ds] eqn:Ed; [reflexivity|].
-        destruct (Hoff eq_refl d0 ds eq_refl) as [B2 B3].
+      * destruct (Hoff eq_refl) as [N B].
+        destruct (map row_day (rows_of o t)) as [|d0 ds] eqn:Ed; [apply c09_norows_off_b; apply N; reflexivity|].
+        destruct (B d0 ds eq_refl) as [B2 B3].
         apply andb_true_iff. split; apply Z.eqb_eq; assumption.
 Qed.
 
